@@ -2,7 +2,7 @@
 import os
 
 from . import core
-from .rules import stdio, cert, mark, exact, optstore, inval, idx, atomic, own, tokens, idxclass, copy, pair, structfree, buf, div, counter, sentinel, appendinit, verdict, basismap, zerotol, escape, lenclass, djsym, ndet, useb4check, norms, opencheck, shell, esolver, errlost, rescan, certdep, neverset, fmt, defaults, scratch, fullscan, slotleak, floatidx, sensemap, trunc, vtypezero, allockind, intdiv, strscan, localfield, rawidx, argcap, staleptr, condalloc, lpstate, vstattype, alphabet, outleak, fieldleak, lenm1, basisdim, dupmark, rowcopy, normlen, logonly, decacc, nzcount, infmap, lognofail, outunset, dupentry, digitseen, signedidx, strcap, nulterm, finite, nullret, pcheck, probstat, dzfresh, kwtable, headguard, hitused, optptr, noindex, colen, pastcol, twopass, growguard
+from .rules import stdio, cert, mark, exact, optstore, inval, idx, atomic, own, tokens, idxclass, copy, pair, structfree, buf, div, counter, sentinel, appendinit, verdict, basismap, zerotol, escape, lenclass, djsym, ndet, useb4check, norms, opencheck, shell, esolver, errlost, rescan, certdep, neverset, fmt, defaults, scratch, fullscan, slotleak, floatidx, sensemap, trunc, vtypezero, allockind, intdiv, strscan, localfield, rawidx, argcap, staleptr, condalloc, lpstate, vstattype, alphabet, outleak, fieldleak, lenm1, basisdim, dupmark, rowcopy, normlen, logonly, decacc, nzcount, infmap, lognofail, outunset, dupentry, digitseen, signedidx, strcap, nulterm, finite, nullret, pcheck, probstat, dzfresh, kwtable, headguard, hitused, optptr, noindex, colen, pastcol, twopass, growguard, negidx
 from .effects import Effects
 
 FIX = os.path.join(os.path.dirname(os.path.abspath(__file__)), "fixtures")
@@ -419,7 +419,7 @@ PROPS = {
                   lambda prog, tier: idxclass.run(prog, scope_units=("mps_mpq.c", "rawlp_mpq.c")),
                   lambda prog, tier: sentinel.run(prog), lambda prog, tier: appendinit.run(prog), lambda prog, tier: appendinit.run_repack(prog), lambda prog, tier: appendinit.run_remap(prog, shared_eff(prog)), lambda prog, tier: fmt.run_args(prog), lambda prog, tier: rescan.run(prog), lambda prog, tier: defaults.run(prog), lambda prog, tier: defaults.run_bndflag(prog), lambda prog, tier: defaults.run_msgmeans(prog), lambda prog, tier: defaults.run_defaultpair(prog),
                   lambda prog, tier: fullscan.run(prog, ["mpq_ILLwrite_mps"], ("mps_mpq.c",), floor=6),
-                  lambda prog, tier: fullscan.run_rowfilter(prog), lambda prog, tier: fullscan.run_rangepair(prog), lambda prog, tier: trunc.run(prog)],
+                  lambda prog, tier: fullscan.run_rowfilter(prog), lambda prog, tier: fullscan.run_rangepair(prog), lambda prog, tier: sensemap.run_rangealloc(prog), lambda prog, tier: trunc.run(prog)],
         "technique": "lossy-conversion sink census over writer/reader closures; table agreement (section names, bound mnemonics, row-type "
                      "letters, markers) between the MPS writer's format literals and the reader's tables / switch cases / strcmp operands; "
                      "must-pass analysis of section emitters before ENDATA; index-space typing",
@@ -547,7 +547,7 @@ PROPS = {
     "C17": {
         "rules": [lambda prog, tier: buf.run(prog),
                   lambda prog, tier: idx.run(prog), lambda prog, tier: idx.run_pubstruct(prog), lambda prog, tier: optptr.run(prog),
-                  lambda prog, tier: colen.run(prog), lambda prog, tier: pastcol.run(prog), lambda prog, tier: twopass.run(prog), lambda prog, tier: growguard.run(prog),
+                  lambda prog, tier: colen.run(prog), lambda prog, tier: pastcol.run(prog), lambda prog, tier: twopass.run(prog), lambda prog, tier: growguard.run(prog), lambda prog, tier: negidx.run(prog),
                   lambda prog, tier: idxclass.run(prog),
                   lambda prog, tier: lenclass.run(prog),
                   lambda prog, tier: lenclass.run_capacity(prog),
@@ -604,7 +604,7 @@ PROPS = {
                   lambda prog, tier: errlost.run(prog, scope_funcs={prog.require_fn("main", unit="esolver/esolver.c").key, prog.require_fn("QSexact_print_sol").key,
                                                                    prog.require_fn("QSexact_solver").key}, floor=3),
                   lambda prog, tier: opencheck.run(prog, scope=lambda f: f.unit.startswith("esolver/") or f.name in ("QSexact_print_sol", "mpq_QSwrite_basis", "mpq_ILLlib_writebasis", "mpq_QSread_prob", "mpq_ILLlib_readbasis")),
-                  lambda prog, tier: esolver.run_statusword(prog), lambda prog, tier: esolver.run_bgate(prog), lambda prog, tier: esolver.run_ftype(prog), lambda prog, tier: signedidx.run(prog), lambda prog, tier: nulterm.run(prog),
+                  lambda prog, tier: esolver.run_statusword(prog), lambda prog, tier: esolver.run_bgate(prog), lambda prog, tier: esolver.run_ftype(prog), lambda prog, tier: negidx.run(prog), lambda prog, tier: signedidx.run(prog), lambda prog, tier: nulterm.run(prog),
                   lambda prog, tier: esolver.run_nzfilter(prog),
                   lambda prog, tier: shell.run(prog, shared_eff(prog)),
                   lambda prog, tier: exact.run(prog, {"CERT": {"roots": ["QSexact_print_sol"], "closure": False}, "TESTS": {"roots": ["QSexact_print_sol"], "closure": True}}),
@@ -864,6 +864,15 @@ for _pid in ("C01", "C02"):
     _ADD[_pid]["explanation"] = _ADD[_pid].get("explanation", "") + (
         " R-OUTCOPY also requires that nothing but the element copies writes an element of an output vector of a hand-over function (no sign "
         "change or scaling between the tested vector and the one the caller receives).")
+for _pid in ("C17", "C19"):
+    _ADD.setdefault(_pid, {})
+    _ADD[_pid]["explanation"] = _ADD[_pid].get("explanation", "") + (
+        " (R-NEGIDX) a subscript by a signed local that a statement has decremented is controlled by an ordering test of that local, not only by "
+        "a truthiness test (the token count of esolver's file-type detection).")
+_ADD.setdefault("C09", {})
+_ADD["C09"]["explanation"] = _ADD["C09"].get("explanation", "") + (
+    " (R-RANGEALLOC) the constant 'R' is stored into ILLlpdata::sense only over paths on which ILLlpdata::rangeval has been allocated or seen "
+    "non-NULL: the writers emit the range of a ranged row only when the array exists.")
 _ADD.setdefault("C17", {})
 _ADD["C17"]["explanation"] = _ADD["C17"].get("explanation", "") + (
     " (R-PUBSTRUCT) a caller-supplied array of a public function is not subscripted inside a loop whose bound is a dimension of the internal "
